@@ -13,10 +13,9 @@ def plan(prop, tier):
     per = 3000 if q else 70000
     shards = [('value', SEED * 1000 + i, per) for i in range(n // 2)] + [('safety', SEED * 1000 + i, per) for i in range(n // 2)]
     shards.append(('prefixes', 0, 0))
-    if not q:
-        flavours = flavours + ['fuzz']
-        for i in range(8):
-            shards.append(('fuzz', SEED * 100 + 50 + i, 1500000))
+    flavours = flavours + ['fuzz']
+    for i in range(2 if q else 8):
+        shards.append(('fuzz', SEED * 100 + 50 + i, 150000 if q else 1500000))
     return flavours, shards
 
 
